@@ -33,6 +33,10 @@ namespace sim { namespace aux {
 		std::string label() const override;
 		void reset(sink* s = nullptr);
 
+		// the sink packets are currently forwarded to. nullptr once the owner
+		// has been closed or destroyed
+		sink* destination() const { return m_dst; }
+
 	private:
 		sink* m_dst;
 	};
